@@ -61,7 +61,10 @@ def main():
                                 "evidence_file": "/verif/evidence/%s.json" % p,
                                 "replay_cmd_template": "./check --replay {path}", "engine": "vx",
                                 "level_claimed": {"category": "proof", "text": LEVEL[p], "design_ref": cfg["design_ref"]},
-                                "level_note": NOTE + " Not covered: " + " | ".join(cfg["not_covered"]),
+                                "level_note": NOTE + ((" The check also runs unit(s) %s of this repository and counts the obligations that discharge "
+                                                       "the contracts this property's units assume about them (DESIGN.md 0.6, last item)."
+                                                       % ", ".join(sorted(cfg["assumes"]))) if cfg.get("assumes") else "")
+                                              + " Not covered: " + " | ".join(cfg["not_covered"]),
                                 "technique": tech})
         else:
             m["not_applicable"].append({"property_id": p, "reason": NA.get(p, "contracts not yet written in this build; see DESIGN.md section 8")})
